@@ -260,15 +260,19 @@ theorem celtFrame_preserves_J (cfg : CeltCfg) (len : Nat) (c : Dec) (hj : J c) (
 open Opus.CeltSyms Opus.CeltBands Opus.CeltBandsProofs in
 /-- The budget discipline of the band data, exactly as far as the code's accounting carries (bands.c:1046-1059, 930-941;
     `ctx->remaining_bits` = `total_bits - ec_tell_frac - 1` at the start of a band, in 1/8 bit):
-    a no-split partition charges the CACHED cost `pulses2bits(q)` of the pulse count it ends with, and reads a PVQ index
-    only if the tracked budget is still non-negative after that charge (the "never bust the budget" loop); a sign bit of an
+    with `q = leafQ …` the pseudo-pulse index a no-split partition ends with (`bits2pulses(b)` lowered by the "never bust
+    the budget" loop), the partition charges exactly the CACHED cost `pulses2bits(q)` of that `q`; for `q = 0` it reads
+    nothing; for `q ≠ 0` the tracked budget is still non-negative after the charge and the one call it adds to the trace
+    is `ec_dec_uint(V(N, get_pulses(q)))` for that same `q`; a sign bit of an
     `N = 1` band is read only while 8 (one whole bit) is left and costs exactly 8.
     This is a statement about cached costs, not about `ec_tell_frac` itself: see UNPROVED `celtFrame_within_budget`. -/
 theorem celtBands_reads_within_tracked_budget (i lm1 N : Nat) (b : Int) (s : BSt) :
-    ((leaf i lm1 N b s).tr ≠ s.tr → 0 ≤ (leaf i lm1 N b s).rem) ∧
-    (∃ q, (leaf i lm1 N b s).rem = s.rem - p2b (rowOf lm1 i) q) ∧
+    (leaf i lm1 N b s).rem = s.rem - p2b (rowOf lm1 i) (leafQ i lm1 b s) ∧
+    (leafQ i lm1 b s = 0 → (leaf i lm1 N b s).tr = s.tr) ∧
+    (leafQ i lm1 b s ≠ 0 → 0 ≤ (leaf i lm1 N b s).rem ∧
+      ∃ v, (leaf i lm1 N b s).tr = .uint (pvqFt N (Opus.Rate.getPulses (leafQ i lm1 b s))) v :: s.tr) ∧
     ((n1One s).tr ≠ s.tr → 8 ≤ s.rem ∧ (n1One s).rem = s.rem - 8) :=
-  ⟨(leaf_budget i lm1 N b s).2, ⟨_, (leaf_budget i lm1 N b s).1⟩, (n1One_budget s).1⟩
+  ⟨(leaf_budget i lm1 N b s).1, (leaf_budget i lm1 N b s).2.1, (leaf_budget i lm1 N b s).2.2, (n1One_budget s).1⟩
 
 /-- non-vacuity: a 10 ms mono wide-band CELT frame of arbitrary bytes runs through allocation, fine energy, the band
     data with theta splits and PVQ indices, and finalisation, without fault and inside its budget -/
